@@ -1,6 +1,8 @@
 """C12 — symbolic calldata is a fully general, well-formed ABI encoding.
 
-Obligations: T-abienc (calldata.py -> Gen/GenAbiEnc.v), Props/C12.vo, lint.
+Obligations: T-abienc (calldata.py -> Gen/GenAbiEnc.v), T-dynparams (sevm.py -> Gen/GenDynParams.v:
+Concretization.process_dyn_params, the concretization given by Path.branch / Path.extend_path),
+Props/C12.vo, lint.
 Tie X-C12, on generated (signature, length configuration, concrete argument) cases:
   * model vs implementation: parse_tuple_type result, the chunk structure of mk_calldata's
     ByteVec (kind, bit size, constant, symbol label without uid, symbol counter), the
@@ -11,7 +13,12 @@ Tie X-C12, on generated (signature, length configuration, concrete argument) cas
     (binding symbols byte by byte; a conflict, a constant where a leaf should be free, a
     size symbol whose value is not a configured candidate, a symbol used twice or a
     missing candidate branch is a failing input); the instantiated bytes are decoded by
-    the Python decoder and by the extracted Coq `decode`.
+    the Python decoder and by the extracted Coq `decode`;
+  * several calldata in one path (harness/props/C12_path.py): sessions of 1-4 signatures registered
+    in one real Path by a script of register / extend_path / branch / fix / skip events, and the real
+    svm.createCalldata implementation followed by real SEVM runs -- every size symbol of every
+    registered calldata must still branch over its configured candidates; against the specification
+    and against the extracted path model (prun).
 """
 import os
 import re
@@ -1133,7 +1140,8 @@ def run(rep, tier):
     rep.coverage["instances_decoded"] = stats["instances"]
     rep.coverage["traces_validated_against_impl"] = len(cases) + len(pcases) if m else 0
     return rep.finish(
-        checker_cmd="make -C coq Props/C12.vo (coq_makefile, coqc 8.16.1) after regenerating coq/Gen/GenAbiEnc.v from /repo/src/halmos/calldata.py",
+        checker_cmd="make -C coq Props/C12.vo (coq_makefile, coqc 8.16.1) after regenerating coq/Gen/GenAbiEnc.v from /repo/src/halmos/calldata.py "
+                    "and coq/Gen/GenDynParams.v from /repo/src/halmos/sevm.py",
         trusted_base=common.TRUSTED_BASE_COMMON,
         assumptions=ASSUMPTIONS,
         partial=PARTIAL,
@@ -1142,7 +1150,14 @@ def run(rep, tier):
              "symbol counter absent or starting at 0/7/98); per case: parse_tuple_type, mk_calldata chunk list, EncodingResult size/static, dyn_params, "
              "SEVM.calldataload on every 32-byte word (fake Exec, real Concretization), and 2 random admitted argument tuples unified with the calldata and decoded "
              "by the spec decoder (Python and extracted Coq). Non-trivial = the signature has a dynamic or composite component. "
-             "Plus parse cases: fixed malformed corpus + mutated type strings through parse_tuple_type vs the model's parse.",
+             "Plus parse cases: fixed malformed corpus + mutated type strings through parse_tuple_type vs the model's parse. "
+             "Plus sessions (several calldata in one path): 1-4 signatures (each with probability 0.7 given a bytes/string/T[] parameter, 15% view) and one length configuration; "
+             "mode path (70%): a random script of events on the real Path/Concretization -- mk_calldata + process_dyn_params per signature (one of them possibly twice), "
+             "extend_path into a fresh Path, branch on a fresh boolean, fixing a registered size symbol to one of its candidates by branch+activate (the path branched from is then "
+             "loaded again: it must not see the fix), skipped symbol ids; symbol counter absent or starting at 0/7/98 -- then the real SEVM.calldataload on every word of every registered calldata "
+             "in the final path (successors made by the real Path.branch must keep the candidates of the other size symbols); mode cheat (30%): the real create_calldata_generic on a hand-made "
+             "build output, then a real SEVM run of PUSH2 off CALLDATALOAD STOP at every length word (and two other words) of every produced calldata on a path extending the caller's. "
+             "A session is non-trivial when at least two of its registered calldata have dynamic parameters.",
     )
 
 
